@@ -16,6 +16,12 @@
 #include "vp.h"
 #define FX_NT 2
 #include "futex_stub.h"
+#ifndef NW
+#define NW 0      /* worker slots of the arena (my_max_num_workers) */
+#endif
+#ifndef MONSTUB
+#define MONSTUB 0
+#endif
 #ifndef SETTLE
 #define SETTLE 6
 #endif
@@ -53,11 +59,33 @@ TASK* _ZN3tbb6detail2r111task_streamILNS1_25task_stream_accessor_typeE1EE7try_po
  * timed_spin_wait_until in concurrent_monitor_mutex::lock: polls without side effects: one poll (as in C02). */
 u8 _ZN3tbb6detail2r121stealing_loop_backoff5pauseEv(struct S_class_tbb__detail__r1__stealing_loop_backoff* b) { return 1; }
 u8 _ZN3tbb6detail2d021timed_spin_wait_untilIZNS0_2r124concurrent_monitor_mutex4lockEvEUlvE_EEbT_(struct S_class_tbb__detail__r1__concurrent_monitor_mutex* mx) { return (u8)vp_cmm_is_free(mx); }
+#if MONSTUB
+/* ---- quick variant: the waiting-threads monitor as a contract stub (the real one: `wakeup` harness and C02).  Real above it:
+ * concurrent_monitor::wait()'s loop (prepare; while (!pred) { if (commit) return; prepare; } cancel) with the real predicate, and
+ * arena::request_workers calling notify(pred).  Contract: a notify whose predicate matches a node registered by prepare_wait removes
+ * it; commit_wait of a removed node returns false at once (epoch changed), otherwise the caller sleeps until a notify removes it. */
+typedef struct S_class_tbb__detail__r1__concurrent_monitor_base MONB; typedef struct S_class_tbb__detail__r1__wait_node NODE;
+static NODE* m_node; static int m_in_list, m_sleeping, m_woken, m_slept, m_wakes, m_wakes_after_push, m_prepares;
+void _ZN3tbb6detail2r123concurrent_monitor_baseINS1_14market_contextEE12prepare_waitERNS1_9wait_nodeIS3_EE(MONB* m, NODE* n) {
+  VP_ASSERT(!m_in_list && !m_sleeping, "one sleeper"); m_node = n; m_in_list = 1; m_prepares++; vp_changed = 1;
+}
+u8 _ZN3tbb6detail2r123concurrent_monitor_baseINS1_14market_contextEE11commit_waitERNS1_9wait_nodeIS3_EE(MONB* m, NODE* n) {
+  if (m_sleeping) { if (!m_woken) { VP_BLOCK(); return 0; } m_sleeping = 0; m_woken = 0; vp_changed = 1; return 1; }
+  if (!m_in_list) return 0;                       /* notified between prepare_wait and commit_wait: the wait is cancelled */
+  m_sleeping = 1; m_slept++; vp_changed = 1; VP_BLOCK(); return 0;
+}
+void _ZN3tbb6detail2r123concurrent_monitor_baseINS1_14market_contextEE11cancel_waitERNS1_9wait_nodeIS3_EE(MONB* m, NODE* n) { m_in_list = 0; vp_changed = 1; }
+void _ZN3tbb6detail2r123concurrent_monitor_baseINS1_14market_contextEE6notifyIZNS1_5arena15request_workersEiibE3__2EEvRKT_(MONB* m, struct S_class_anon_76* pred) {
+  ARENA* a = *(ARENA**)pred;                      /* the lambda of request_workers captures `this`; it matches context.my_arena_addr */
+  m_wakes++; if (pushed) m_wakes_after_push++;
+  if (m_in_list && vp_node_arena(m_node) == a) { m_in_list = 0; if (m_sleeping) m_woken = 1; vp_changed = 1; }
+}
+#endif
 /* ---- threading_control boundary */
 void _ZN3tbb6detail2r117threading_control13adjust_demandENS1_24threading_control_clientEii(struct S_class_tbb__detail__r1__threading_control* tc,
     struct S_class_tbb__detail__r1__pm_client* c1, struct S_class_tbb__detail__r1__thread_dispatcher_client* c2, u32 mandatory_delta, u32 workers_delta) {
-  demand += (int)workers_delta; n_adjust++;     /* arena of size 1: my_max_num_workers == 0, nobody can be asked to come */
-  VP_ASSERT((int)workers_delta == 0 && (int)mandatory_delta == 0, "an arena without worker slots never changes its worker demand");
+  demand += (int)workers_delta; n_adjust++;
+  VP_ASSERT(((int)workers_delta == NW || (int)workers_delta == -NW) && (int)mandatory_delta == 0, "worker demand changes by +-my_max_num_workers (0 in an arena without worker slots)");
 }
 struct S_class_tbb__detail__r1__thread_control_monitor* _ZN3tbb6detail2r117threading_control27get_waiting_threads_monitorEv(struct S_class_tbb__detail__r1__threading_control* tc) { return vp_monitor(); }
 void _ZN3tbb6detail2r15arena17on_thread_leavingEj(ARENA* a, u32 ref) {
@@ -74,8 +102,8 @@ void vp_rec_limit(void) { VP_ASSERT(0, "recall_point recursion"); }
 #define RUN2  VP_RUNT(vp_thr_idle, 0) VP_RUNT(vp_thr_res, 1)
 #define MAX2  vp_cur = 0; VP_RUNMAX(vp_thr_idle) vp_cur = 1; VP_RUNMAX(vp_thr_res)
 int main(void) {
-  vp_wake_world(PRESET);
-  sp0 = vp_sp0(); base_refs = vp_arena_refs();
+  vp_wake_world(PRESET, NW);
+  sp0 = vp_sp0(); base_refs = vp_arena_refs(); demand = PRESET ? NW : 0;    /* a SET flag means the demand was issued */
   VP_ASSERT(vp_pool_word() == (PRESET ? 1 : 0) && vp_resume_population() == 0 && vp_stack_state(sp0) == 1, "pre-state");
   vp_thr_idle_start(vp_arena(), vp_slot0());
   vp_thr_res_start(sp0);
@@ -85,18 +113,32 @@ int main(void) {
   MAX2
   int stuck_after = VP_STUCK(vp_thr_idle) && VP_STUCK(vp_thr_res);
   int done = vp_thr_idle_fin && vp_thr_res_fin;
+#if MONSTUB
+  VP_ASSERT(!(resume_returned && m_sleeping && !m_woken && vp_resume_population() != 0 && m_wakes_after_push == 0 && stuck_before && stuck_after && !vp_changed),
+            "C20: lost resume: resume() returned, the arena's only thread is parked in the waiting-threads monitor, the resume stream is non-empty and no wake-up was issued after the push");
+#endif
   VP_ASSERT(!(!done && stuck_before && stuck_after && !vp_changed),
             "C20/C02: lost wake-up: the thread that suspended sleeps (or is parked) although its resume task is published and nobody else can take it");
   __CPROVER_assume(done);
   VP_ASSERT(got == 1 && pushed == 1 && taken == 1, "the resume task was published once and obtained once");
   VP_ASSERT(vp_resume_population() == 0, "resume stream empty again");
+#if !MONSTUB
   VP_ASSERT(vp_waitset_size() == 0, "nobody left in the wait set of the waiting-threads monitor");
+#endif
+#if MONSTUB
+  VP_ASSERT(!m_in_list && !m_sleeping, "nobody left in the waiting-threads monitor");
+#else
   VP_ASSERT(!fx_anyone_sleeping(), "nobody asleep in the kernel");
+#endif
   VP_ASSERT(vp_arena_refs() == base_refs, "arena reference balance of r1::resume");
   VP_ASSERT(vp_stack_state(sp0) == 2, "suspend point marked notified by resume()");
-  VP_ASSERT(demand == 0, "worker demand untouched");
+  VP_ASSERT(demand == (vp_pool_word() == 1 ? NW : 0) && (vp_pool_word() == 0 || vp_pool_word() == 1), "at quiescence the demand handed to threading_control matches the pool-state flag (SET: max workers, UNSET: 0)");
   /* both ways out must be reachable: T really slept in the futex and was woken / T never slept */
+#if MONSTUB
+  if (m_slept > 0) { VP_ASSERT(m_wakes_after_push > 0, "a parked thread was woken by a wake-up issued after the push"); VP_REACHED(); }
+#else
   if (fx_n_slept > 0) { VP_ASSERT(fx_n_woken == fx_n_slept, "every sleep ended by a wake-up"); VP_REACHED(); }
+#endif
   else { VP_REACHED(); }
   return 0;
 }
